@@ -164,6 +164,12 @@ def op_restrict(m, M, rng, S, how):
 
 def op_transform(m, M, rng, S, what):
     d, p, tol = m.p.shape[0], m.p, 0
+    import skfem as fem
+    try:
+        fem.CellBasis(m, m.elem(), intorder=1)          # the operand has been USED: its reference mapping (and finder) are cached
+        used = True
+    except Exception:
+        used = False
     if what == "translate":
         v = np.array([.5, -1.25, 2.])[:d]
         r, E = m.translated(tuple(v)), p + v[:, None]
@@ -178,6 +184,11 @@ def op_transform(m, M, rng, S, what):
         r, u, q = m.mirrored(tuple(n), p0), n / math.sqrt(float(n @ n)), np.zeros(d) if p0 is None else np.array(p0)
         E, tol = np.array([x - 2. * float((x - q) @ u) * u for x in p.T]).T, 1e-12
     f = cl_coordinates(r, E, tol)
+    if not f and used and type(r).__name__ in ("MeshLine1", "MeshTri1", "MeshQuad1", "MeshTet1", "MeshHex1"):
+        # the cells of the result occupy the transformed point sets ALSO as seen through the result's own mapping / bases
+        b = fem.CellBasis(r, r.elem(), intorder=1)
+        if b.doflocs.shape != r.p.shape or not np.allclose(b.doflocs, r.p, atol=1e-12):
+            f = ["COORDINATES: a basis built on the result places the vertices at the operand's (old) coordinates: max deviation %.3e" % np.abs(b.doflocs - r.p).max()]
     if f:
         return None, None, f
     g = dict(zip(pts(p), pts(r.p)))
@@ -271,7 +282,12 @@ def op_join(m, M, rng, S, how):
     """JOIN (+): result vertices are the operands' vertices, merged within 1e-8; cells are the cells of both operands (1e-8 is only used to
     identify vertices: MEASURE / CELLS are then checked as strictly as everywhere else)."""
     d, x1 = m.p.shape[0], float(m.p[0].max())
-    o = m.translated((x1 - float(m.p[0].min()), 0., 0.)[:d]) if how == "t" else m.mirrored((1., 0., 0.)[:d], (x1, 0., 0.)[:d])
+    if how == "s":
+        # partner obtained by a NEGATIVE scaling factor: its vertices on the plane x = 0 carry the coordinate -0.0
+        m = m.translated((-float(m.p[0].min()), 0., 0.)[:d])
+        o = m.scaled((-1., 1., 1.)[:d])
+    else:
+        o = m.translated((x1 - float(m.p[0].min()), 0., 0.)[:d]) if how == "t" else m.mirrored((1., 0., 0.)[:d], (x1, 0., 0.)[:d])
     r, q = m + o, np.hstack((m.p, o.p))
     loc = snap(q, r.p, 1e-8)
     if (loc < 0).any() or set(loc.tolist()) != set(range(r.p.shape[1])):
@@ -336,9 +352,9 @@ def op_trace(m, M, rng, S):
 
 OPS = {"restrict": partial(op_restrict, how="restrict"), "remove": partial(op_restrict, how="remove"), "byname": partial(op_restrict, how="byname"),
        "unused": op_unused, "dedupe": op_dedupe, "oriented": op_oriented, "split": op_split, "split_x": partial(op_split, style="x"),
-       "join_t": partial(op_join, how="t"), "join_m": partial(op_join, how="m"), "matmul": op_matmul, "extrude": op_extrude, "trace": op_trace}
+       "join_t": partial(op_join, how="t"), "join_m": partial(op_join, how="m"), "join_s": partial(op_join, how="s"), "matmul": op_matmul, "extrude": op_extrude, "trace": op_trace}
 OPS.update({w: partial(op_transform, what=w) for w in ("translate", "scale", "mirror", "mirror_obl", "morph")})
-COMMON = ["restrict", "remove", "byname", "translate", "scale", "mirror", "mirror_obl", "morph", "unused", "dedupe", "join_t", "join_m", "trace"]
+COMMON = ["restrict", "remove", "byname", "translate", "scale", "mirror", "mirror_obl", "morph", "unused", "dedupe", "join_t", "join_m", "join_s", "trace"]
 FOR = {"line": COMMON + ["oriented", "extrude"], "tri": COMMON + ["oriented", "extrude", "matmul"], "quad": COMMON + ["split", "split_x", "matmul"],
        "tet": COMMON + ["oriented", "matmul"], "hex": COMMON + ["split", "matmul"], "wedge": COMMON + ["split", "matmul"]}
 AFTER = {("quad", "split"): "tri", ("quad", "split_x"): "tri", ("hex", "split"): "tet", ("wedge", "split"): "tet", ("line", "extrude"): "quad", ("tri", "extrude"): "wedge"}
